@@ -638,7 +638,7 @@ pub fn run(e: &Engine) {
     e.campaign(
         "lockstep",
         "1-9 steps: a transaction of 1-9 generated StorageTxn calls (whole surface, arbitrary Unicode contents) run in lock-step on InMemoryStorage and SqliteStorage and committed or abandoned, close/reopen, or a read-only probe; every return value compared, full dump compared after every transaction and reopen; non-trivial = >=1 commit, >=1 abandon, >=1 reopen and >=3 of {tasks, operations, base version, working set, sync_complete} touched",
-        e.tier.pick(3000, 200_000),
+        e.tier.pick(6000, 300_000),
         strategy,
         |c| serde_json::to_value(c).unwrap(),
         check_case,
@@ -646,7 +646,7 @@ pub fn run(e: &Engine) {
     e.campaign(
         "legacy-schemas",
         "a database file written by the harness in the layout of 0.8, 0.9, (0,1) or (0,2) with generated tasks, operations (synced or not), working set and base version; after opening (upgrade) the full dump incl. per-task operation lookup must equal what was written, and further calls agree with an in-memory twin; non-trivial = tasks and operations present",
-        e.tier.pick(1200, 60_000),
+        e.tier.pick(2500, 100_000),
         legacy_strategy,
         |c| serde_json::to_value(c).unwrap(),
         check_legacy,
